@@ -293,7 +293,7 @@ impl C06 {
         let uni = universe(&vars, tier == Tier::Thorough);
         let seqs = prior_sequences(&vars, &uni, seed, if tier == Tier::Quick { 30 } else { 80 });
         let priors = build_priors(&mut env, &seqs, if tier == Tier::Quick { 8 } else { 20 });
-        let n_rand = if tier == Tier::Quick { 100_000 } else { 1_500_000 };
+        let n_rand = if tier == Tier::Quick { 400_000 } else { 3_000_000 };
         C06 { env, uni, seqs, priors, n_rand, seed, deep_vars: vars }
     }
     fn n_pairs(&self) -> u64 { (self.uni.len() * self.uni.len()) as u64 }
@@ -429,7 +429,7 @@ impl C07 {
         let uni = universe(&vars, tier == Tier::Thorough);
         let seqs = prior_sequences(&vars, &uni, seed, if tier == Tier::Quick { 30 } else { 80 });
         let priors = build_priors(&mut env, &seqs, if tier == Tier::Quick { 6 } else { 16 });
-        C07 { env, uni, priors, n_rand: if tier == Tier::Quick { 60_000 } else { 1_000_000 }, seed }
+        C07 { env, uni, priors, n_rand: if tier == Tier::Quick { 250_000 } else { 2_000_000 }, seed }
     }
     fn n_pairs(&self) -> u64 { let n = self.uni.len() as u64; n * (n + 1) / 2 }
 
@@ -541,7 +541,7 @@ impl C08 {
         let mut n_exh = 0u64; let mut p = 1u64;
         for _ in 0..max_len { p *= pairs.len() as u64; n_exh += p; }
         let uni = universe(&vars, false);
-        C08 { env, pairs, max_len, n_exh, n_rand: if tier == Tier::Quick { 150_000 } else { 2_000_000 }, seed, uni }
+        C08 { env, pairs, max_len, n_exh, n_rand: if tier == Tier::Quick { 500_000 } else { 4_000_000 }, seed, uni }
     }
     fn decode(&self, mut idx: u64) -> Vec<(T, T)> {
         let base = self.pairs.len() as u64;
@@ -656,7 +656,7 @@ impl C09 {
         let seqbase = C08::new(Tier::Quick, seed);
         let n_top = (uni.len() * 2) as u64;
         let n_pairs = (anon_idx.len() * uni.len() * 2) as u64;
-        let n_ins = if tier == Tier::Quick { seqbase.n_exh.min(900) + 40_000 } else { seqbase.n_exh + 400_000 };
+        let n_ins = if tier == Tier::Quick { seqbase.n_exh.min(900) + 120_000 } else { seqbase.n_exh + 800_000 };
         C09 { env, uni, anon_idx, priors, seqbase, n_top, n_pairs, n_ins }
     }
 }
